@@ -80,6 +80,11 @@ pub fn start_watchdog(prop: &str, out: &str, replay: bool) {
     });
 }
 
+/// a reader that hands over at most k bytes per read() call (a pipe, a socket, a BufReader at its buffer boundary)
+pub struct Dribble<R> { pub inner: R, pub k: usize }
+impl<R: std::io::Read> std::io::Read for Dribble<R> { fn read(&mut self, buf: &mut [u8]) -> std::io::Result<usize> { let n = buf.len().min(self.k); self.inner.read(&mut buf[..n]) } }
+impl<R: std::io::Seek> std::io::Seek for Dribble<R> { fn seek(&mut self, p: std::io::SeekFrom) -> std::io::Result<u64> { self.inner.seek(p) } }
+
 pub fn jstr(s: &str) -> String {
     let mut o = String::from("\"");
     for c in s.chars() {
